@@ -390,9 +390,31 @@ def r2(ctx):
     crt = sorted(sym_text(cr, n.test, crcfg.node_of(n.test), allow_calls=("len",)) if crcfg.node_of(n.test) is not None else norm(n.test) for n in walk_own(cr.node) if isinstance(n, ast.If))
     fbt = sorted(norm(n.test) for n in walk_own(fb.node) if isinstance(n, ast.If) and isinstance(n.test, ast.Compare) and norm(n.test.left).endswith(".count")
                  and not any(isinstance(x, ast.Raise) for x in n.body))
-    ctx.check(crt == sorted(["len(%s) == 0" % cr.params[1], "len(%s) == 1" % cr.params[1]]) and
-              [t.replace("pkt.hdr.", "hdr.").replace(fb.params[0] + ".", "hdr.") for t in fbt] == ["hdr.count == 1", "hdr.count > 1"], "C09.R2", cr,
-              "framing selected by count: 0 -> empty, 1 -> single, >=2 -> multi, on both sides", witness={"create": crt, "from_bytes": fbt})
+    # writer side by value: the counts under which each framing is produced, from the path conditions of the statement that
+    # produces it (however the three cases are ordered and whichever comparisons select them)
+    from engine.cond import CondCtx as _CC, satisfiable as _sat
+    wcc = _CC(ctx.folder, cr.module, cr.cls)
+    lenx = "len(%s)" % cr.params[1]
+
+    def counts_at(node_ast):
+        nd = crcfg.node_of(node_ast)
+        if nd is None:
+            return None
+        lits = []
+        for (t, p) in crcfg.conditions_of(nd.id):
+            tn = crcfg.node_of(t)
+            e = ast.parse(sym_text(cr, t, tn, allow_calls=("len",)), mode="eval").body if tn is not None else t
+            lits += wcc.literal(e, p)
+        from engine.cond import Lit as _Lit
+        lcall = ast.parse(lenx, mode="eval").body
+        # (len(x) == 0 is read as the truth value of x by the literal theory: a count is stated both ways)
+        return [k for k in (0, 1, 2, 3, 255) if _sat(lits + [_Lit("cmp", wcc.subject(lcall), ("==", k), True, ""), _Lit("truth", wcc.subject(lcall.args[0]), None, k != 0, "")])]
+    empties = [n for n in walk_own(cr.node) if isinstance(n, (ast.Assign, ast.Return)) and isinstance(n.value, ast.Constant) and n.value.value == b""]
+    got = {"single": counts_at(p1.call), "multi": counts_at(pn.call), "empty": sorted({k for n in empties for k in (counts_at(n) or [])}) if empties else None}
+    # (an initial `payload = b''` in front of the cases holds for every count: then the cases themselves must be exhaustive)
+    w_ok = got["single"] == [1] and got["multi"] == [2, 3, 255] and got["empty"] is not None and 0 in got["empty"]
+    ctx.check(w_ok and [t.replace("pkt.hdr.", "hdr.").replace(fb.params[0] + ".", "hdr.") for t in fbt] == ["hdr.count == 1", "hdr.count > 1"], "C09.R2", cr,
+              "framing selected by count: 0 -> empty, 1 -> single, >=2 -> multi, on both sides", witness={"create": got, "from_bytes": fbt})
     # overhead model
     P = ctx.repo.cls("connection:Packet")
     o = [cap.overhead(n) for n in range(0, 6)]
